@@ -17,7 +17,7 @@ RULE = ("Line/Quadratic/Cubic segments of every class and paths of 2-5 of them a
 ASSUMPTIONS = ["point() is the reference curve (C03)", "tolerance 1e-7*size + 1e-9*d (the critical points come from np.roots)"]
 CONFIGS = ['scipy']
 BUDGET = {'quick': 16000, 'thorough': 300000}
-REQUIRED = ['size_below_1e-4', 'reversed_after_queries', 'reassigned_after_queries', 'q:far', 'q:near', 'q:on', 'q:curvature_centre', 'q:beyond_end', 'q:random', 'kind:L', 'kind:Q', 'kind:C', 'path', 'interior_min',
+REQUIRED = ['path_with_loop_segment', 'size_below_1e-4', 'reversed_after_queries', 'reassigned_after_queries', 'q:far', 'q:near', 'q:on', 'q:curvature_centre', 'q:beyond_end', 'q:random', 'kind:L', 'kind:Q', 'kind:C', 'path', 'interior_min',
             'interior_max']
 
 EPS = 2.0 ** -52
@@ -31,6 +31,14 @@ def strategy(tier, config):
             specs = draw(gen.chain_specs(min_size=2, max_size=5, arcs=False, unequal=draw(st.booleans()),
                                          break_prob=draw(st.sampled_from([0, 20]))))
             what = 'path'
+            if draw(st.integers(0, 3)) == 0:
+                # one segment is replaced by a loop: a curve that returns to its own start point
+                i = draw(st.integers(0, len(specs) - 1))
+                b = draw(gen.bezier_spec(deg_strategy=st.sampled_from([2, 3]), classes=['generic'], scale_strategy=st.just(gen.spec_size(specs) or 1.0)))['spec']
+                dz = [specs[i][1][0] - b[1][0], specs[i][1][1] - b[1][1]]
+                b = [b[0]] + [[p[0] + dz[0], p[1] + dz[1]] for p in b[1:]]
+                b[-1] = list(b[1])
+                specs = specs[:i] + [b] + specs[i:]
         else:
             specs = [draw(gen.bezier_spec())['spec']]
             what = 'seg'
@@ -151,6 +159,8 @@ def check(case, ctx):
         return
     path = ctx.lib('build', gen.build_path, specs)
     ctx.count('path')
+    if any(sp[1] == sp[-1] for sp in specs):
+        ctx.count('path_with_loop_segment')
     res = ctx.lib('Path.radialrange', path.radialrange, z)
     (dmin, tmin, imin), (dmax, tmax, imax) = res
     ctx.check(isinstance(imin, (int, np.integer)) and isinstance(imax, (int, np.integer)) and 0 <= imin < len(path) and 0 <= imax < len(path),
